@@ -27,6 +27,7 @@ PRELUDE = ("From Coq Require Import ZArith List Bool Arith.\nFrom RV Require Imp
            "  | Done t c (ErrExn ETransport) => [6; t; Z.of_nat c]\n"
            "  | Done t c (ErrExn _) => [7; t; Z.of_nat c]\n"
            "  | Done t c ErrOther => [4; t; Z.of_nat c]\n"
+           "  | Done t c ErrCancelled => [10; t; Z.of_nat c]\n"
            "  | LoopExn t n => [5; t; Z.of_nat n] end.\n"
            "Definition sc (s : st) : Z := match s with Inactive => 0 | Idle => 1 | WantEcho => 2 | WantRply => 3 end.\n"
            "Definition mkc (l : list cmdinfo) (c : cid) : cmdinfo := nth c l {| prio := 0; max_retries := 0%nat; timeout := 0; wfr := false; tx_hdr := 0%nat; rx_hdr := None; rx_null := None |}.\n"
@@ -83,6 +84,10 @@ def gen_scenario(rng, small=False):
             if rng.random() < 0.7:
                 events.append((GRID * 420, ("call", ncmd)))
                 cmds.append({"kind": "rq30c9", "idx": 11, "prio": 0, "max_retries": 3, "timeout": 20_000_000, "wfr": False})
+    if rng.random() < 0.2:          # a caller cancelled from outside, strictly after its call: while queued, in flight, or done
+        i = rng.randrange(ncmd)
+        t_call = next(t for t, e in events if e == ("call", i))
+        events.append((t_call + GRID * rng.choice([1, 2, 3, 4, 31, 32, 33, 34, 63, 64, 65, 66, 97, 130, 300]), ("cancel", i)))
     events.sort(key=lambda e: e[0])
     return {"lifo": rng.random() < 0.4, "mode": mode, "cmds": cmds, "events": events, "plan": plan, "default_plan": default_plan}
 
@@ -226,6 +231,7 @@ def _run_impl(scn, horizon_us=80_000_000):
                 if pl["lat"] > 0:
                     await asyncio.sleep(pl["lat"] / 1e6)
                 if pl["fail"]:
+                    info.setdefault("failed_writes", []).append(us())
                     raise exc.TransportError("write failed (scripted)")
                 i = next((k for k, c in enumerate(cmds) if c is cur), by_frame[frame])
                 if str(cmds[i]) != frame:
@@ -244,14 +250,27 @@ def _run_impl(scn, horizon_us=80_000_000):
         for i, c in enumerate(cmds):
             by_frame[str(c)] = i
 
+        engine = None
+        if scn.get("via_engine"):       # the public entry point that carries the knobs: a never-started Engine around THIS protocol
+            from ramses_tx.gateway import Engine  # noqa: PLC0415
+            engine = Engine("/dev/null")
+            engine._protocol = proto
+
         async def caller(i):
             c = scn["cmds"][i]
             qos = QosParams(max_retries=c["max_retries"], timeout=c["timeout"] / 1e6, wait_for_reply=c["wfr"])
             try:
-                p = await proto.send_cmd(cmds[i], priority=Priority(c["prio"]), qos=qos)
+                if engine is not None:
+                    p = await engine.async_send_cmd(cmds[i], priority=Priority(c["prio"]), max_retries=c["max_retries"], timeout=c["timeout"] / 1e6,
+                                                    wait_for_reply=c["wfr"])
+                else:
+                    p = await proto.send_cmd(cmds[i], priority=Priority(c["prio"]), qos=qos)
                 src = 0 if p.src.id == GW else (1 if p.src.id == CTL else 2)
                 trace.append([2, us(), i, hdrs(p._hdr), src])
                 info.setdefault("results", {})[i] = (str(p), p._hdr)
+            except asyncio.CancelledError:      # cancelled from outside (a scripted "cancel"): told so, and the cancellation goes on
+                trace.append([10, us(), i])
+                raise
             except exc.ProtocolSendFailed:
                 trace.append([3, us(), i])
             except exc.TransportError:
@@ -261,6 +280,7 @@ def _run_impl(scn, horizon_us=80_000_000):
             except Exception as err:  # noqa: BLE001
                 trace.append([4, us(), i, type(err).__name__])
 
+        tasks: dict = {}
         for t, ev in scn["events"]:
             ts = t / 1e6
             if ev[0] == "made":
@@ -280,7 +300,9 @@ def _run_impl(scn, horizon_us=80_000_000):
                             w.exception()
                 loop.call_at(ts, lost)
             elif ev[0] == "call":
-                loop.call_at(ts, lambda i=ev[1]: loop.create_task(caller(i)))
+                loop.call_at(ts, lambda i=ev[1]: tasks.__setitem__(i, loop.create_task(caller(i))))
+            elif ev[0] == "cancel":         # the caller's task is cancelled from outside: an outer wait_for (the discovery poller's), a shutdown
+                loop.call_at(ts, lambda i=ev[1]: tasks[i].cancel() if i in tasks else None)
             elif ev[0] == "stall":          # a callback that takes wall time: the clock moves on within the iteration
                 loop.call_at(ts, lambda d=ev[1]: setattr(loop, "_vtime", loop._vtime + d / 1e6))
             elif ev[0] == "rx":
@@ -293,7 +315,8 @@ def _run_impl(scn, horizon_us=80_000_000):
         info["n_trace"] = len(trace)
         info["state_before_probe"] = type(proto._context.state).__name__
         info["qsize_before_probe"] = proto._context._que.qsize()
-        info["pending_in_queue"] = sum(1 for e in proto._context._que.queue if not e[4].done())
+        q = proto._context._que          # the buffer's entries, whichever queue class holds them
+        info["pending_in_queue"] = sum(1 for e in list(getattr(q, "queue", None) or getattr(q, "_queue", [])) if not e[4].done())
         # C09 probe: a fresh command to a responsive device must succeed
         if type(proto._context.state).__name__ != "Inactive":
             from ramses_tx.command import Command  # noqa: PLC0415
@@ -376,6 +399,8 @@ def scn_to_coq(scn, info) -> str:
             evs.append(f"({t}, Call {ev[1]}%nat)")
         elif ev[0] == "stall":
             evs.append(f"({t}, Stall {ev[1]})")
+        elif ev[0] == "cancel":
+            evs.append(f"({t}, Cancel {ev[1]}%nat)")
         else:
             from ramses_tx.packet import Packet  # noqa: PLC0415
             cmd = cmds[ev[2]]
